@@ -13,6 +13,7 @@ from fractions import Fraction
 from . import domains
 from .spec.cfgspec import G
 from .spec.fsaspec import A, EPS
+from .spec.convspec import strings_over
 
 F = Fraction
 
@@ -142,6 +143,46 @@ def merge_groups(rng, n_random):
     return out
 
 
+# ------------------------------------------------------------------------------------------------- byte-string probe sets
+BLIND_CAP = 1400        # size of the blind enumeration (all byte strings over occurring bytes + foreign bytes)
+
+
+def foreign_bytes(occ):
+    out = []
+    for cand in (0x80, 0xBF, 0x9F):            # a continuation byte that does not occur
+        if cand not in occ:
+            out.append(cand)
+            break
+    for cand in (0x7A, 0x79, 0x78):            # an ASCII byte that does not occur
+        if cand not in occ:
+            out.append(cand)
+            break
+    return out
+
+
+def byte_domain(want_support, got_support, maxbytes, extra_bytes=()):
+    """Explicit probe set: both supports, every truncation / one-byte corruption of an expected string, and the blind
+    enumeration of all byte strings (as long as it stays under BLIND_CAP) over the occurring bytes plus two foreign bytes."""
+    occ = sorted({b for x in want_support for b in x} | {b for x in got_support for b in x if isinstance(b, int)} | set(extra_bytes))
+    alpha = occ + foreign_bytes(set(occ))
+    P = set(want_support) | set(got_support)
+    for x in list(want_support):
+        for k in range(len(x)):
+            P.add(x[:k])                                   # truncated
+            P.add(x[:k] + x[k + 1:])                       # one byte dropped
+            for f in alpha[-2:]:
+                P.add(x[:k] + (f,) + x[k + 1:])            # one byte replaced by a foreign byte
+                if len(x) < maxbytes:
+                    P.add(x[:k] + (f,) + x[k:])            # foreign byte inserted
+    blind_len = 0
+    total = 1
+    while blind_len < maxbytes and total + len(alpha) ** (blind_len + 1) <= BLIND_CAP:
+        blind_len += 1
+        total += len(alpha) ** blind_len
+    P |= set(strings_over(alpha, blind_len))
+    return sorted((x for x in P if len(x) <= maxbytes), key=lambda x: (len(x), repr(x))), alpha, blind_len
+
+
 # ================================================================================================= C17 grammars
 TERMINAL_MAPS = [
     {"a": "a", "b": "é", "c": "€"},
@@ -200,6 +241,13 @@ class Rep(Node):
         self.base, self.lo, self.hi, self.style = base, lo, hi, style
 
 
+class Raw(Node):
+    """Verbatim pattern text (same text for interegular and for `re`); used for lookaheads."""
+
+    def __init__(self, text):
+        self.text = text
+
+
 class CI(Node):
     """(?i:...)"""
 
@@ -227,29 +275,54 @@ def _clit(ch):
     return "\\" + ch if ch in _CLASS_SPECIAL else ch
 
 
+_ESC_SETS = {"d": "0123456789", "w": "abcdefghijklmnopqrstuvwxyzABCDEFGHIJKLMNOPQRSTUVWXYZ0123456789_", "s": " \t\n\r\f\v"}
+
+
+def _listing(chars):
+    out = ""
+    for ch in sorted(set(chars)):
+        out += {"\n": "\\n", "\t": "\\t", "\r": "\\r", "\f": "\\f", "\v": "\\v"}.get(ch, _clit(ch))
+    return out
+
+
 def render(n, for_re=False):
-    """Pattern text.  for_re=True wraps the ASCII-defined class escapes in (?a:...) so that Python's `re` reads \\w \\d \\s
-    the way interegular defines them (ASCII), leaving everything else identical."""
+    """Pattern text.  for_re=True gives the text handed to Python's `re`: identical except that the class escapes
+    \\w \\d \\s \\W \\D \\S are written out as the explicit ASCII classes interegular defines them to be (Python's own
+    \\w \\d \\s are Unicode-aware; re.ASCII cannot be used because it would also switch case-insensitive matching to ASCII).
+    A bracket class containing a *negated* escape is written as an alternation / lookahead of explicit classes."""
     if isinstance(n, Lit):
         return _lit(n.ch)
+    if isinstance(n, Raw):
+        return n.text
     if isinstance(n, Dot):
         return "."
     if isinstance(n, Esc):
-        t = "\\" + n.letter
-        return f"(?a:{t})" if for_re and n.letter in "wWdDsS" else t
+        if not (for_re and n.letter in "wWdDsS"):
+            return "\\" + n.letter
+        return "[" + ("^" if n.letter.isupper() else "") + _listing(_ESC_SETS[n.letter.lower()]) + "]"
     if isinstance(n, Cls):
         body = ""
-        esc = False
+        negs = []
         for it in n.items:
             if isinstance(it, tuple):
                 body += _clit(it[0]) + "-" + _clit(it[1])
             elif len(it) == 2 and it[0] == "\\":
-                body += it
-                esc = esc or it[1] in "wWdDsS"
+                if not for_re or it[1] not in "wWdDsS":
+                    body += it
+                elif it[1].islower():
+                    body += _listing(_ESC_SETS[it[1]])
+                else:
+                    negs.append(set(_ESC_SETS[it[1].lower()]))
             else:
                 body += _clit(it)
-        t = "[" + ("^" if n.neg else "") + body + "]"
-        return f"(?a:{t})" if for_re and esc else t
+        if not negs:
+            return "[" + ("^" if n.neg else "") + body + "]"
+        inter = set.intersection(*negs)                     # union of complements = complement of the intersection
+        if not n.neg:
+            alts = (["[" + body + "]"] if body else []) + ["[^" + _listing(s_) + "]" for s_ in negs]
+            return "(?:" + "|".join(alts) + ")"
+        core = "[" + _listing(inter) + "]" if inter else "[^\\s\\S]"
+        return "(?:" + ("(?![" + body + "])" if body else "") + core + ")"
     if isinstance(n, Cat):
         return "".join(_atomise(p, for_re) if isinstance(p, Alt) else render(p, for_re) for p in n.parts)
     if isinstance(n, Alt):
@@ -320,8 +393,8 @@ CHARSETS = {
     "wide": "aé€😀A",
     "digits": "09aZ_ ",
 }
-QUICK_CHARSETS = {"ab": 4, "abc1": 4, "mixed_case": 3, "punct": 3, "ws": 3, "latin1": 3, "multimap": 2, "wide": 4, "digits": 4}
-THOROUGH_LEN = {"ab": 7, "abc1": 5, "mixed_case": 4, "punct": 4, "ws": 4, "latin1": 4, "multimap": 3, "wide": 5, "digits": 5}
+QUICK_LEN = {"ab": 5, "abc1": 4, "mixed_case": 4, "punct": 4, "ws": 4, "latin1": 4, "multimap": 3, "wide": 4, "digits": 4, "core": 2}
+THOROUGH_LEN = {"ab": 8, "abc1": 5, "mixed_case": 5, "punct": 5, "ws": 5, "latin1": 5, "multimap": 4, "wide": 6, "digits": 5, "core": 2}
 
 
 def pattern_corpus():
@@ -376,6 +449,15 @@ def pattern_corpus():
     c["wide_cls"] = R(C(["é", "€", "😀"]), 1, 2)
     c["wide_neg"] = C(["😀"], neg=True)
     c["nested"] = R(Cat(L("a"), R(Alt(L("b"), Cat(L("a"), L("a"))), 0, None)), 0, 2)
+    # patterns whose FSM has transitions into dead (rejection) states - the skip in both loops of interegular_to_wfsa:
+    # an empty class inside a concatenation, and lookaheads (beyond the listed operators, but compiled by interegular)
+    c["dead_empty_class_branch"] = Alt(Cat(L("a"), C(["\\w", "\\W"], neg=True)), L("b"))
+    c["dead_empty_class_loop"] = Cat(R(Cat(C(["a", "b"]), C(["\\s", "\\S"], neg=True)), 0, None), L("a"))
+    c["dead_lookahead_neg"] = Raw("a(?!b)[ab]")
+    c["dead_lookahead_neg_plus"] = Raw("(?!ab)[ab]+")
+    c["dead_lookahead_pos"] = Raw("(?=a)[ab]b")
+    c["dead_lookahead_mid"] = Raw("(a|b)(?!a)(a|b)")
+    c["dead_lookahead_opt"] = Raw("[ab]*(?!b)a?")
     c["alt_prefix"] = Alt(Cat(L("a"), L("b")), Cat(L("a"), L("a")), L("a"))
     return c
 
@@ -405,7 +487,7 @@ def random_pattern(rng, chars, depth=3, ci=False):
                 else:
                     items.append(a)
             else:
-                items.append("\\" + rng.choice("dwsDWS"))
+                items.append("\\" + rng.choice("dws" if ci else "dwsDWS"))
         return Cls(items, neg=rng.random() < 0.4)
     if r < 0.45:
         return Cat(*[random_pattern(rng, chars, depth - 1, ci) for _ in range(rng.randint(2, 3))])
@@ -528,8 +610,19 @@ def selfcheck():
     for _ in range(300):
         n = random_pattern(rng, "ab1 \n-]", 3)
         re.compile(render(n, True))
-    assert render(Esc("d"), True) == "(?a:\\d)" and render(Esc("d")) == "\\d"
+    assert render(Esc("d"), True) == "[0123456789]" and render(Esc("d")) == "\\d"
     assert re.fullmatch(render(Cls(["\\w"]), True), "é") is None and re.fullmatch(render(Cls(["\\w"])), "é")
+    # explicit classes read like the ASCII escapes on ASCII, also inside bracket classes with negated escapes
+    for items, neg in [(["\\D", "1"], False), (["\\D", "a"], True), (["\\W", "\\D"], False), (["\\S", "\\D", "x"], True), (["\\s", "a"], True),
+                       (["\\w"], True), (["\\D", "\\S"], True)]:
+        a_, b_ = re.compile(render(Cls(items, neg)), re.ASCII), re.compile(render(Cls(items, neg), True))
+        for ch in map(chr, range(128)):
+            assert bool(a_.fullmatch(ch)) == bool(b_.fullmatch(ch)), (items, neg, ch)
+    for letter in "dwsDWS":
+        a_, b_ = re.compile("\\" + letter, re.ASCII), re.compile(render(Esc(letter), True))
+        for ch in list(map(chr, range(128))) + [c for cs in CHARSETS.values() for c in cs]:
+            assert bool(a_.fullmatch(ch)) == bool(b_.fullmatch(ch)), (letter, ch)
+            assert bool(re.fullmatch("(?i:" + render(Esc(letter), True) + ")", ch)) == bool(b_.fullmatch(ch)), (letter, ch)
     return True
 
 
